@@ -33,7 +33,7 @@ def namespace():
 
 def analyse(source, arg_types, ns):
     def rules_factory(ser):
-        return T.Rules(G.GLOBALS, G.EXTERNALS, dict(arg_types), ser.nodes)
+        return T.Rules(dict(G.GLOBALS, **G.SHADOW_GLOBALS), G.EXTERNALS, dict(arg_types), ser.nodes)
     return R.Analysis(source, 'f', rules_factory, ns)
 
 
@@ -121,7 +121,7 @@ def one_program(run, prog, ns, stats, want_cls=None):
         # class: the run exhibited the one non-monotone transition of the pinned transfer function (an assignment target
         # kept stale while its value was unknown, strongly updated once it became known) before it failed to converge
         a = an.diverged
-        cls = R.DIVERGENCE_CLASS if a._nonmono else None
+        cls = R.UNBOUNDED_CLASS if a._unbounded else (R.DIVERGENCE_CLASS if a._nonmono else None)
         key = 'diverged_known' if cls else 'diverged_unexplained'
         stats[key] = stats.get(key, 0) + 1
         run.fail('the real analysis did not reach a fixed point within %d node visits (cap 3000 + 300 per CFG node; '
@@ -151,7 +151,9 @@ def one_program(run, prog, ns, stats, want_cls=None):
 # Lean side: correspondence of the model's analysis and verified checkers on the real solution
 # ---------------------------------------------------------------------------------------------------------------
 def _fuel(fi):
-    return R.visit_cap(len(fi.nodes))
+    """Node visits the model may make: it follows the same schedule as the real run, so a little more than the real
+    run needed is enough; for a run that hit the cap, the cap."""
+    return R.visit_cap(len(fi.nodes)) if fi.diverged else 3 * fi.visits + 200
 
 
 def lean_jobs(items):
@@ -159,6 +161,8 @@ def lean_jobs(items):
     jobs = []
     for prog, an, taint, wsets in items:
         for fi in an.fns:
+            if fi.diverged and fi.an._unbounded:
+                continue          # ever-deeper product types: nothing finite to send
             jobs.append({'prog': prog, 'an': an, 'fi': fi, 'extra': {}, 'S': sorted(taint.get(fi.def_id, {})),
                          'W': sorted(wsets.get(fi.def_id, ())), 'seeds': getattr(an, 'taint_seeds', {}).get(fi.def_id, [])})
     return jobs
